@@ -123,7 +123,7 @@ def impl_skeleton(ans):
     if not m:
         return "?" + s[:100]
     impl_g, ty, trait_extra, self_args = m.group(1), m.group(2), m.group(3), m.group(4)
-    consts = re.findall(r"const__DISCRIMINANT_(\w+):\w+=(.*?);", s)
+    consts = re.findall(r"const__DISCRIMINANT_(\w+):\w+=(.*?);(?=const__DISCRIMINANT_|matchval\{)", s)
     arms = re.findall(r"__DISCRIMINANT_\w+=>derive_more::core::result::Result::Ok\(E::(.*?)\),", s)
     return (f"ok repr={ty} consts=" + ";".join(f"{n}={t}" for n, t in consts) + " arms=" + ";".join(arms),
             impl_g, trait_extra, self_args)
@@ -196,6 +196,22 @@ def behaviour(res, rng, tier):
                   f'let got = {show}; let want = {ref}; if got != want {{ fail("{i}", n as i128, got, want); }} }} }}',
                main_call=f"c{i}::run();")
         descs[str(i)] = src
+    # long enums: the distance from the last explicit discriminant exceeds the positive range of the (signed) repr type although
+    # every discriminant fits (defect of the pinned tree, fixed: theorem consts_in_repr_are_discriminants). The reference reads
+    # the stored discriminant: rustc's own lint on `E::A128 as i8` computes `-1_i8 + i8::MIN` and refuses the cast.
+    for ty, first, count in (("i8", -1, 129), ("i8", -128, 256), ("u8", 0, 256), ("i8", -100, 150), ("i16", -3, 300)):
+        i = n
+        n += 1
+        names = [f"A{j}" for j in range(count)]
+        src = f"#[repr({ty})] #[try_from(repr)] enum E {{ {names[0]} = {first if first >= 0 else '-' + str(-first)}, " + ", ".join(names[1:]) + " }"
+        disc = lambda nm: f"(unsafe {{ *(&E::{nm} as *const E as *const {ty}) }})"
+        ref = " else ".join(f'if n == {disc(nm)} {{ String::from("{nm}") }}' for nm in names) + ' else { format!("Err({})", n) }'
+        show = "match &r { " + " ".join(f'Ok(E::{nm}) => String::from("{nm}"),' for nm in names) + " Err(e) => format!(\"Err({})\", e.input) }"
+        cf.add(i, f"#[derive(derive_more::TryFrom)] {src.replace('enum E', 'pub enum E', 1)}\n"
+                  f"pub fn run() {{ for n in ({ty}::MIN..={ty}::MAX) {{ unsafe {{ CHECKS += 1; }} let r = <E as core::convert::TryFrom<{ty}>>::try_from(n); "
+                  f'let got = {show}; let want = {ref}; if got != want {{ fail("{i}", n as i128, got, want); }} }} }}',
+               main_call=f"c{i}::run();")
+        descs[str(i)] = f"#[repr({ty})] #[try_from(repr)] enum E {{ A0 = {first}, A1, .., A{count - 1} }}"
     d = C.scratch_crate("c12-tf", cf.source('unsafe { println!("DONE checks={} fails={}", CHECKS, FAILS); }'))
     try:
         rc, out, err = C.scratch_run(d)
